@@ -830,10 +830,10 @@ impl BlockBuilder {
 //@ external-body
 //@ end
 }
-// what a sealed builder hands to the cursor: a block that is well-formed as soon as something was put in, holding
-// exactly the accepted entries
+// what a sealed builder hands to the cursor: a well-formed block -- also when nothing was put in -- holding exactly the
+// accepted entries
 proof fn lemma_sealed_block(bb: BlockBuilder)
-    requires bb.bwf(), bb.ents().len() >= 1
+    requires bb.bwf()
     ensures bb.sb().wf(), bb.sb().ents() == bb.ents()
 { }
 
